@@ -401,6 +401,12 @@ def fit_pair(rng, kind=None, where=None, ident=None):
     return kind + "@" + where + ("+id" if ident else ""), fits
 
 
+def illegal_names(case):
+    """Some fit's folder name (last path component; never the identifier) ends in the archive / temporary suffix: outside the
+    guard `legal` of the naming theorems (Naming.v), where the folder of one fit IS the archive name of another."""
+    return any(not f.get("ident") and f["name"].endswith((".zip", ".tmp")) for f in case.get("fits") or [])
+
+
 def neighbour_history(cfg, fits, runs, salt, shape):
     h = dict(cfg)
     h.update({"fits": fits, "runs": runs, "salt": salt, "shape": shape})
@@ -459,6 +465,15 @@ def gen_neighbours(ctx, by_key, vocab):
         runs += tail(nf)
         cs = neighbour_history(c, fits, runs, 1000 + n, shape + ":" + label)
         cases.append(cs)
+    # names ending in the archive / temporary suffix beside the fit named by the stem (outside the guard of the naming
+    # theorems; known finding archive-suffix-name): uninterrupted alternation only
+    for n in range(6 if thorough else 1):
+        c, _ = by_key[rng.choice(keys)]
+        stem = rng.choice(STEMS)
+        names = [stem, stem + rng.choice([".zip", ".zip", ".zip.tmp"])]
+        rng.shuffle(names)
+        fits = [{"name": x, "prefix": "demo", "tag": "", "ident": False} for x in names]
+        cases.append(neighbour_history(c, fits, [{"fit": i, "crash": None} for _ in range(3) for i in (0, 1)], 2000 + n, "S1:archive-suffix-name"))
     return cases
 
 
@@ -487,6 +502,8 @@ def labels(case):
         return ["database-paths"]
     if case.get("fits"):
         out.add("neighbours")
+        if illegal_names(case):
+            return ["archive-suffix-name"]
     crashes = [r["crash"] for r in case["runs"] if r.get("crash")]
     for cr in crashes:
         if cr["kind"] in ("ZW",) and cr["variant"] in ("empty", "half"):
@@ -965,7 +982,10 @@ def run(ctx):
                 "Single crashes are enumerated exhaustively over every mutation event of a fresh run and of a completed re-run for the "
                 "chosen configurations (2 in the quick tier, 12 of the 48 in the thorough tier, seed-dependent); multi-crash histories are random. Every history ends with two "
                 "uninterrupted runs; two DatabasePaths histories (uninterrupted runs through a database session) are judged by the oracle "
-                "only. Non-trivial = some run was really killed and a later run ran to its end (database histories: at least two runs); "
+                "only. Neighbours histories: 2-3 DIFFERENT fits (own name / path prefix / unique tag / model, with or without the identifier "
+                "folder; names with dots, one a prefix of the other, differing only after the last dot, '.zip'/'.tmp' inside) run in one output "
+                "directory in any order with kills in between (12 per quick run, 4 shapes fixed: dotted siblings without identifier folder), each "
+                "fit judged on the whole history; plus one pair <stem> / <stem>.zip (known finding). Non-trivial = some run was really killed and a later run ran to its end (database histories: at least two runs); "
                 "distinct = distinct (settings, run list)")
     ctx.trusted = [
         "Coq 8.16.1 kernel incl. vm_compute",
@@ -980,6 +1000,9 @@ def run(ctx):
         "the model covers DirectoryPaths with the Drawer and LBFGS searches; DatabasePaths is covered by the oracle only (re-run of a "
         "completed fit, no crashes); dynesty/emcee checkpoints are not covered",
         "output settings are fixed along a history; LBFGS runs >= 1 update block; visualisation is off",
+        "several fits in one output directory: no fit's folder lies inside another fit's folder (the flat disk model of Naming.v does not "
+        "express nesting); folder names ending in '.zip' / '.tmp' are outside the guard `legal` of the naming theorems (oracle only, known "
+        "finding archive-suffix-name); fits run one after the other (no concurrent writers)",
         "theorems named *_repaired are about the model with the four file-system repairs switched on (proposed_fixes/C06-*.diff); the "
         "correspondence is pinned to Model.repaired (obligation model-variant: behavioural probes must show every repair present)",
     ]
@@ -1075,6 +1098,8 @@ def run(ctx):
             ctx.failure("oracle", msg, c, classes=["%s:%s" % (l, sig) for l in lab], impl=compact(res))
         if c.get("db") or c["search"] in ("dynesty", "pyswarms"):
             continue
+        if c.get("fits") and illegal_names(c):
+            continue          # outside the guard `legal` of the naming model: oracle only
         if c.get("fits"):
             try:
                 terms, problems = coq_neighbours(c, res, flags)
@@ -1153,7 +1178,12 @@ MANIFEST = {
             "and under every crash once the archive write is atomic (durable), a reachability invariant holds along every history and "
             "recoverable states resume to a complete result (resume; unconditional for the repaired code), with _refuted witnesses for the "
             "archive-write window, LBFGS resume, truncated search state / summary, empty timer files; vm_compute correspondence of the model "
-            "with real killed/re-run fits (trace, outcome, folder, archive) and a direct property oracle",
+            "with real killed/re-run fits (trace, outcome, folder, archive) and a direct property oracle; "
+            "naming model (folder / archive / temporary archive / marker of a fit; suffixes translated fail-closed from _zip_path, zip_directory, "
+            "_has_completed_path, output_path pinned) with theorems: the archive name determines the folder, two different legal fits share no "
+            "name, and in any interleaving of runs and crashes of several fits in one directory each fit sees exactly its own history (hence "
+            "durable / complete-once / never handed a neighbour's output); correspondence on generated neighbour histories (names really used, "
+            "per-fit runs, no run touches another fit's folder or archive) and a per-fit oracle incl. a name-agnostic search for the completed result",
     "note": "Trusted: Coq kernel + vm_compute, the audit-hook fault injector and file readers of the harness, POSIX process-death "
             "semantics (no power loss, no concurrent writers). Model: Drawer and LBFGS with DirectoryPaths (incl. the user files of "
             "Analysis.save_attributes / save_results); DatabasePaths, DynestyStatic and PySwarms by the oracle only; every os.replace is "
